@@ -142,3 +142,22 @@ func (n normCmp) impliesPositive() bool {
 	}
 	return false
 }
+
+// holdsAt: subject OP c is true for subject == v.
+func (n normCmp) holdsAt(v int64) bool {
+	switch n.Op {
+	case token.LSS:
+		return v < n.C
+	case token.LEQ:
+		return v <= n.C
+	case token.GTR:
+		return v > n.C
+	case token.GEQ:
+		return v >= n.C
+	case token.EQL:
+		return v == n.C
+	case token.NEQ:
+		return v != n.C
+	}
+	return false
+}
